@@ -11,11 +11,14 @@
 package mcpx
 
 import (
+	"bytes"
 	"context"
 	"encoding/json"
 	"fmt"
+	"io"
 	"log/slog"
 	"net/http"
+	"net/http/httptest"
 	"runtime"
 	"strings"
 	"sync"
@@ -52,6 +55,7 @@ type c10Spec struct {
 	Reqs     []c10Req `json:"reqs"`
 	BgNotes  []int    `json:"bg_notes_ms"`        // instants at which every session gets an out-of-band notification
 	CaseIDs  bool     `json:"case_ids,omitempty"` // ServerOptions.GetSessionID issues ids that differ from one another only in letter case
+	Real     bool     `json:"real,omitempty"`     // outside the bubble: a real net/http server on a loopback socket and a real http.Client (wall-clock milliseconds; only the rules that do not depend on time are decided)
 }
 
 func genC10(r *vh.Rand) c10Spec {
@@ -105,6 +109,7 @@ func genC10(r *vh.Rand) c10Spec {
 			s.BgNotes = append(s.BgNotes, r.Intn(14))
 		}
 	}
+	s.Real = r.Chance(1, 8) // drawn last: the other members of a case do not depend on it
 	return s
 }
 
@@ -121,6 +126,15 @@ func TestVerifC10(t *testing.T) {
 	vh.Run(t, cfg, func(c *vh.Case) {
 		spec := genC10(c.R)
 		c.SetSpec(spec)
+		if spec.Real {
+			c.Seen("http_stack", "net/http over a loopback socket")
+			func() {
+				defer c.Guard("")
+				runC10(c, spec)
+			}()
+			return
+		}
+		c.Seen("http_stack", "in-process round tripper under virtual time")
 		c.Bubble("", func() { runC10(c, spec) })
 	})
 }
@@ -252,7 +266,10 @@ func runC10(c *vh.Case, spec c10Spec) {
 		opts.EventStore = yieldingStore{mcp.NewMemoryEventStore(nil)}
 	}
 	h := mcp.NewStreamableHTTPHandler(func(*http.Request) *mcp.Server { return server }, opts)
-	ip := &vhm.InProc{Handler: h}
+	var ip c10Client = &vhm.InProc{Handler: h}
+	if spec.Real {
+		ip = newC10Real(h)
+	}
 	base := map[string]string{"Content-Type": "application/json", "Accept": "application/json, text/event-stream", "Mcp-Protocol-Version": "2025-06-18"}
 	hdr := func(sid string) map[string]string {
 		m := map[string]string{}
@@ -377,7 +394,11 @@ func runC10(c *vh.Case, spec c10Spec) {
 			}()
 		}
 	}
-	synctestWait()
+	if spec.Real {
+		time.Sleep(ms(20))
+	} else {
+		synctestWait()
+	}
 	dupID := map[string]bool{}
 	{
 		n := map[string]int{}
@@ -501,6 +522,21 @@ func runC10(c *vh.Case, spec c10Spec) {
 	}
 	wg.Wait()
 	time.Sleep(ms(30))
+	if spec.Real {
+		// wall-clock mode: give what was written to the sockets up to 3 s to be read; what is still missing then is
+		// counted, never judged (c10RealSettled)
+		for i, quiet, last := 0, 0, -1; i < 300 && quiet < 15 && !c10RealSettled(&emu, emitted, &smu, &seen); i++ {
+			time.Sleep(ms(10))
+			smu.Lock()
+			n := len(seen)
+			smu.Unlock()
+			if n == last {
+				quiet++ // nothing read for 150 ms: what is missing has no stream to travel on (cut, stateless, ...)
+			} else {
+				quiet, last = 0, n
+			}
+		}
+	}
 	if spec.Store && stateful {
 		// Every session drops its standalone stream and resumes it after the last event it saw:
 		// whatever is replayed must be its own.
@@ -551,7 +587,9 @@ func runC10(c *vh.Case, spec c10Spec) {
 	}
 	streams.Wait()
 	ip.Wait()
-	time.Sleep(11 * time.Second)
+	if !spec.Real {
+		time.Sleep(11 * time.Second)
+	}
 
 	// ------------------------------------------------------------ oracle
 	smu.Lock()
@@ -595,12 +633,14 @@ func runC10(c *vh.Case, spec c10Spec) {
 		}
 		switch t.Kind {
 		case "late":
-			if s.ExKind != "standalone" {
+			// (wall-clock mode: "one millisecond after the handler returned" need not be after the response was written)
+			if s.ExKind != "standalone" && !spec.Real {
 				c.Violate("in-request-message-misrouted", "%s was sent after its request had completed but travelled on the %s exchange of request %d (instance %d)", t, s.ExKind, s.ExReq, s.ExInst)
 				return
 			}
 		case "cancel":
-			if !jsonMode && (s.ExKind == "standalone" || s.ExReq != t.Req) {
+			// (wall-clock mode: the notice is sent asynchronously; the request it belongs to may have completed by then, and it then rightly travels on the standalone stream)
+			if !jsonMode && (s.ExKind == "standalone" || s.ExReq != t.Req) && !(spec.Real && s.ExKind == "standalone") {
 				c.Violate("in-request-message-misrouted", "the cancellation of nested request %s was issued while handling request %d but travelled on the %s exchange of request %d", t, t.Req, s.ExKind, s.ExReq)
 				return
 			}
@@ -644,6 +684,10 @@ func runC10(c *vh.Case, spec c10Spec) {
 		if strings.Contains(tag, "/upd") {
 			// every other session keeps its standalone stream attached: it must get the update exactly once
 			for i := 0; i < spec.Sessions; i++ {
+				if i != t.Sess && !spec.Store && updSeen[fmt.Sprintf("%s@%d", tag, i)] == 0 && spec.Real {
+					c.Count("real_mode_not_read_within_3s", 1)
+					continue
+				}
 				if i != t.Sess && !spec.Store && updSeen[fmt.Sprintf("%s@%d", tag, i)] != 1 {
 					c.Violate("message-lost", "resources/updated %s reached session %d %d time(s) (it is subscribed and its standalone stream is attached)", tag, i, updSeen[fmt.Sprintf("%s@%d", tag, i)])
 					emu.Unlock()
@@ -658,6 +702,10 @@ func runC10(c *vh.Case, spec c10Spec) {
 		if !stateful && (strings.Contains(tag, "/s2c") || (jsonMode && strings.Contains(tag, "/note"))) {
 			continue // no stream exists for these in stateless / JSON mode
 		}
+		if count[tag] == 0 && spec.Real {
+			c.Count("real_mode_not_read_within_3s", 1)
+			continue
+		}
 		if count[tag] != 1 {
 			c.Violate("message-lost", "message %s was emitted while its target stream was attached but delivered %d times", tag, count[tag])
 			emu.Unlock()
@@ -666,6 +714,9 @@ func runC10(c *vh.Case, spec c10Spec) {
 	}
 	emu.Unlock()
 	c.Count("messages_routed", len(seen))
+	if spec.Real {
+		c.Count("messages_routed_over_real_sockets", len(seen))
+	}
 	conc := map[int]int{}
 	for _, q := range spec.Reqs {
 		conc[q.Sess]++
@@ -692,4 +743,69 @@ func (y yieldingStore) Open(ctx context.Context, sid, stream string) error {
 		runtime.Gosched()
 	}
 	return y.MemoryEventStore.Open(ctx, sid, stream)
+}
+
+
+// c10Client is what the scenario needs of an HTTP stack: the in-process round tripper under virtual time, or
+// (c10Real) net/http on a loopback socket.
+type c10Client interface {
+	RoundTrip(*http.Request) (*http.Response, error)
+	Do(ctx context.Context, method, url string, hdr map[string]string, body []byte) (int, http.Header, []byte, error)
+	Wait()
+}
+
+type c10Real struct {
+	srv *httptest.Server
+	tr  *http.Transport
+}
+
+func newC10Real(h http.Handler) *c10Real {
+	return &c10Real{srv: httptest.NewServer(h), tr: &http.Transport{MaxIdleConnsPerHost: 64}}
+}
+
+func (r *c10Real) RoundTrip(req *http.Request) (*http.Response, error) {
+	req.URL.Host = r.srv.Listener.Addr().String()
+	req.Host = ""
+	return r.tr.RoundTrip(req)
+}
+
+func (r *c10Real) Do(ctx context.Context, method, url string, hdr map[string]string, body []byte) (int, http.Header, []byte, error) {
+	req, err := http.NewRequestWithContext(ctx, method, url, bytes.NewReader(body))
+	if err != nil {
+		return 0, nil, nil, err
+	}
+	for k, v := range hdr {
+		req.Header.Set(k, v)
+	}
+	resp, err := r.RoundTrip(req)
+	if err != nil {
+		return 0, nil, nil, err
+	}
+	defer resp.Body.Close()
+	b, _ := io.ReadAll(resp.Body)
+	return resp.StatusCode, resp.Header, b, nil
+}
+
+func (r *c10Real) Wait() {
+	r.tr.CloseIdleConnections()
+	r.srv.CloseClientConnections()
+	r.srv.Close()
+}
+
+// c10RealSettled reports whether every message emitted so far for a request or out of band has been read at least once.
+func c10RealSettled(emu *sync.Mutex, emitted map[string]bool, smu *sync.Mutex, seen *[]c10Seen) bool {
+	smu.Lock()
+	got := map[string]bool{}
+	for _, s := range *seen {
+		got[s.Tag.String()] = true
+	}
+	smu.Unlock()
+	emu.Lock()
+	defer emu.Unlock()
+	for tag := range emitted {
+		if !got[tag] && !strings.Contains(tag, "/late") {
+			return false
+		}
+	}
+	return true
 }
